@@ -174,6 +174,16 @@ func Log(d Number) Number {
 	}
 }
 
+// e1e2AtZero returns the e1e2 part of f(d) at a zero real part for a function f
+// whose first derivative at zero is one and whose second derivative at zero is
+// zero: the e1e2 part of d, or the signed zero z when that part is zero.
+func e1e2AtZero(d Number, z float64) float64 {
+	if d.E1E2mag == 0 {
+		return z
+	}
+	return d.E1E2mag
+}
+
 // Sin returns the sine of d.
 //
 // Special cases are:
@@ -187,7 +197,7 @@ func Sin(d Number) Number {
 			Real:    d.Real,
 			E1mag:   d.E1mag,
 			E2mag:   d.E2mag,
-			E1E2mag: -d.Real,
+			E1E2mag: e1e2AtZero(d, -d.Real),
 		}
 	}
 	fn := math.Sin(d.Real)
@@ -230,7 +240,7 @@ func Tan(d Number) Number {
 			Real:    d.Real,
 			E1mag:   d.E1mag,
 			E2mag:   d.E2mag,
-			E1E2mag: d.Real,
+			E1E2mag: e1e2AtZero(d, d.Real),
 		}
 	}
 	fn := math.Tan(d.Real)
@@ -256,7 +266,7 @@ func Asin(d Number) Number {
 			Real:    d.Real,
 			E1mag:   d.E1mag,
 			E2mag:   d.E2mag,
-			E1E2mag: d.Real,
+			E1E2mag: e1e2AtZero(d, d.Real),
 		}
 	} else if m := math.Abs(d.Real); m >= 1 {
 		if m == 1 {
@@ -332,7 +342,7 @@ func Atan(d Number) Number {
 			Real:    d.Real,
 			E1mag:   d.E1mag,
 			E2mag:   d.E2mag,
-			E1E2mag: -d.Real,
+			E1E2mag: e1e2AtZero(d, -d.Real),
 		}
 	}
 	fn := math.Atan(d.Real)
